@@ -12,7 +12,7 @@ import (
 
 // C15 (registry half): every For / CancelOlderThan / Shutdown sequence on the real ViewContexts, in
 // lock-step with a set-based reference.
-func init() { checks["C15R"] = c15r }
+func init() { checks["C15:registry"] = c15r }
 
 type c15op struct {
 	Kind string // for | cancel | shutdown
